@@ -77,6 +77,37 @@ def check_closers_serialised(ctx: Ctx, oid: str) -> None:
                     ob.violation(caller, call, f"{caller.short} calls {name} outside the receiver thread and is not one of the reasoned exemptions")
 
 
+def _registration_only_open(repo: Repo, ob: Obligation, f_set: FuncInfo, cfg) -> None:
+    regs = [n for n in cfg.nodes if isinstance(n.ast, ast.Assign) and isinstance(n.ast.targets[0], ast.Subscript) and "_callbacks" in unparse(n.ast.targets[0]) and n.id in cfg.live()]
+    ob.require(len(regs) == 1, "callback registration not found")
+    r = regs[0]
+    in_empty = any(isinstance(a, ast.ExceptHandler) and a.type is not None and unparse(a.type).endswith("Empty") for a in repo.ancestors(r.ast))
+    f = Facts(repo, f_set, {})
+    for (t, lab) in cfg.guards(r.id):
+        if t.kind == "test":
+            f.assume(t.ast, lab == "true")
+    open_ = f.get("self._closed") is False and f.get("self._receiveclosed.is_set()") is False
+    ob.site(f_set, r.ast, "registration only when the queue is empty and the channel is not closed", in_empty_handler=in_empty, open=open_)
+    if not in_empty:
+        ob.violation(f_set, r.ast, "the callback is registered while items may still be queued: later items would overtake them")
+    if not open_:
+        ob.violation(f_set, r.ast, "the callback is registered on a channel that is already closed: its endmarker would never fire")
+    val = r.ast.value
+    if not (isinstance(val, ast.Tuple) and [unparse(e) for e in val.elts] == ["callback", "endmarker", "self._strconfig"]) or unparse(r.ast.targets[0].slice) != "self.id":
+        ob.violation(f_set, r.ast, "the registry entry is not (callback, endmarker, strconfig) under the channel's own id")
+
+
+
+def check_registration_only_open(ctx: Ctx, oid: str) -> None:
+    """a registry entry may only be created for a channel that is still open and whose queue is drained:
+    entries of closed channels are never removed again (leak) and never get an endmarker"""
+    repo = ctx.repo
+    f_set = repo.func(f"{GB}.Channel.setcallback")
+    cfg = build_cfg(repo, f_set, Oracle(repo, f_set, precise=True, call_raises=lambda c, f: [("Empty", True)] if callee_attr(c) == "get" else None))
+    with ctx.obligation(oid, "registration-only-open") as ob:
+        _registration_only_open(repo, ob, f_set, cfg)
+
+
 def check_terminal_frame(ctx: Ctx, oid: str) -> None:
     repo = ctx.repo
     with ctx.obligation(oid, "state-machine-terminal-frame") as ob:
@@ -205,23 +236,7 @@ def check(ctx: Ctx) -> None:
             p = cfg.must_pass(starts, [gn[0].id, cfg.exit.id], {x.id for x in cn}, em_edges)
             if p is not None:
                 ob.violation(f_set, g, "a drained item can be skipped without reaching the callback", path=cfg.describe_path(p))
-        regs = [n for n in cfg.nodes if isinstance(n.ast, ast.Assign) and isinstance(n.ast.targets[0], ast.Subscript) and "_callbacks" in unparse(n.ast.targets[0]) and n.id in cfg.live()]
-        ob.require(len(regs) == 1, "callback registration not found")
-        r = regs[0]
-        in_empty = any(isinstance(a, ast.ExceptHandler) and a.type is not None and unparse(a.type).endswith("Empty") for a in repo.ancestors(r.ast))
-        f = Facts(repo, f_set, {})
-        for (t, lab) in cfg.guards(r.id):
-            if t.kind == "test":
-                f.assume(t.ast, lab == "true")
-        open_ = f.get("self._closed") is False and f.get("self._receiveclosed.is_set()") is False
-        ob.site(f_set, r.ast, "registration only when the queue is empty and the channel is not closed", in_empty_handler=in_empty, open=open_)
-        if not in_empty:
-            ob.violation(f_set, r.ast, "the callback is registered while items may still be queued: later items would overtake them")
-        if not open_:
-            ob.violation(f_set, r.ast, "the callback is registered on a channel that is already closed: its endmarker would never fire")
-        val = r.ast.value
-        if not (isinstance(val, ast.Tuple) and [unparse(e) for e in val.elts] == ["callback", "endmarker", "self._strconfig"]) or unparse(r.ast.targets[0].slice) != "self.id":
-            ob.violation(f_set, r.ast, "the registry entry is not (callback, endmarker, strconfig) under the channel's own id")
+        _registration_only_open(repo, ob, f_set, cfg)
 
     f_nlo = repo.func(f"{GB}.ChannelFactory._no_longer_opened")
     with ctx.obligation("C10.d", "endmarker-once") as ob:
